@@ -332,3 +332,103 @@ func HarnessC15SortStableLong() {
 	}
 	verifrt.Reach("done")
 }
+
+// HarnessC15ContainerEquality: equality of sets, maps and lists is symmetric
+// and holds exactly when the contents are the same (C15 equality laws over
+// containers).
+func HarnessC15ContainerEquality() {
+	switch verifrt.Choose(3) {
+	case 0:
+		s1, m1 := c16MkSet(2)
+		s2, m2 := c16MkSet(2)
+		same := len(m1) == len(m2)
+		if same {
+			for _, x := range m1 {
+				if !c16Has(m2, x) {
+					same = false
+				}
+			}
+		}
+		e12 := s1.Equals(s2) == True
+		e21 := s2.Equals(s1) == True
+		verifrt.Reach("sets")
+		verifrt.Assert(e12 == e21, "set-equality-symmetric")
+		verifrt.Assert(e12 == same, "sets-equal-iff-same-elements")
+		verifrt.Assert(s1.Equals(s1) == True, "set-equals-itself")
+	case 1:
+		m1, k1 := c16MkMap(2)
+		m2, k2 := c16MkMap(2)
+		same := len(k1) == len(k2)
+		if same {
+			for _, e := range k1 {
+				v2, ok := c16ModelGet(k2, e.k)
+				if !ok || v2 != e.v {
+					same = false
+				}
+			}
+		}
+		e12 := m1.Equals(m2) == True
+		e21 := m2.Equals(m1) == True
+		verifrt.Reach("maps")
+		verifrt.Assert(e12 == e21, "map-equality-symmetric")
+		verifrt.Assert(e12 == same, "maps-equal-iff-same-entries")
+	case 2:
+		n1, n2 := verifrt.Choose(3), verifrt.Choose(3)
+		var a1, a2 []int64
+		var i1, i2 []Object
+		for i := 0; i < n1; i++ {
+			v := verifrt.Int64()
+			a1 = append(a1, v)
+			i1 = append(i1, &Int{value: v})
+		}
+		for i := 0; i < n2; i++ {
+			v := verifrt.Int64()
+			a2 = append(a2, v)
+			i2 = append(i2, &Int{value: v})
+		}
+		same := n1 == n2
+		if same {
+			for i := range a1 {
+				if a1[i] != a2[i] {
+					same = false
+				}
+			}
+		}
+		l1, l2 := NewList(i1), NewList(i2)
+		e12 := l1.Equals(l2) == True
+		e21 := l2.Equals(l1) == True
+		verifrt.Reach("lists")
+		verifrt.Assert(e12 == e21, "list-equality-symmetric")
+		verifrt.Assert(e12 == same, "lists-equal-iff-same-items-in-order")
+	}
+}
+
+// HarnessC15SetMembershipMixedNumericFP: x in set <=> some element == x, also
+// when x and the elements are of different numeric types (int, byte, float).
+func HarnessC15SetMembershipMixedNumericFP() {
+	kinds := []int{kInt, kByte, kFloat}
+	n := 1 + verifrt.Choose(2)
+	s := NewSetWithSize(n)
+	var elems []Object
+	for i := 0; i < n; i++ {
+		e := c15Mk(kinds[verifrt.Choose(len(kinds))])
+		s.Add(e)
+		elems = append(elems, e)
+	}
+	x := c15Mk(kinds[verifrt.Choose(len(kinds))])
+	// ints beyond 2^53 compare with floats through a lossy conversion (== itself
+	// is approximate there): outside this harness
+	for _, o := range append(elems, x) {
+		if iv, ok := o.(*Int); ok {
+			verifrt.Assume(iv.value >= -(1<<53) && iv.value <= 1<<53)
+		}
+	}
+	want := false
+	for _, e := range elems {
+		if eqv(e, x) {
+			want = true
+		}
+	}
+	verifrt.Reach("done")
+	verifrt.Assert(s.Contains(x).value == want, "set-membership-agrees-with-iterating-and-comparing")
+}
